@@ -1,5 +1,110 @@
-"""Race-detector part of C15 / C20 (placeholder until the race harness is built)."""
+"""Race-detector part of C15 / C20: builds harness/cmd/vrace with -race and runs the RunForever stress workload.
+
+C15: any WARNING: DATA RACE block (deduplicated by the first escalator/harness frame of each of the two stacks)
+is a violation - escalator must not write into objects it shares with the informer cache, and its own state
+must not be touched by two goroutines.  C20: the loop must stop when told to and must not panic or return
+anything but "main loop stopped".  The wall clock decides nothing except a very generous stop watchdog (30 s
+for a loop whose scans take milliseconds); if that fires the run is reported, with the summary, as a violation
+of C20 only when it reproduces in a second run, otherwise as inconclusive."""
+import glob
+import json
+import os
+import re
+import subprocess
+
+VERIF = os.path.dirname(os.path.dirname(os.path.abspath(__file__)))
+
+
+def parse_races(text):
+    """Returns a list of (signature, block) for every DATA RACE block."""
+    out = []
+    blocks = re.split(r"(?m)^={18}\n", text)
+    for b in blocks:
+        if "WARNING: DATA RACE" not in b:
+            continue
+        # the two access stacks: take the first frame that is escalator's or the harness' in each
+        stacks = re.split(r"(?m)^(?:Previous |)(?:read|write|atomic read|atomic write) (?:at|by) .*$", b)
+        frames = []
+        for st in stacks[1:3]:
+            fr = ""
+            for ln in st.splitlines():
+                ln = ln.strip()
+                if ln.startswith("github.com/atlassian/escalator/") or ln.startswith("main.") or ln.startswith("verifharness/"):
+                    fr = re.sub(r"\(.*$", "", ln)
+                    break
+            frames.append(fr or "?")
+        sig = "|".join(sorted(frames))
+        out.append((sig, b))
+    return out
+
+
+def one_run(binpath, seed, duration, workdir, idx):
+    logbase = os.path.join(workdir, "race_%d" % idx)
+    summ = os.path.join(workdir, "race_%d.json" % idx)
+    env = dict(os.environ, GORACE="halt_on_error=0 log_path=%s" % logbase)
+    env.pop("GOMAXPROCS", None)
+    env.pop("GOGC", None)
+    p = subprocess.Popen(["timeout", "-s", "QUIT", str(int(duration) + 120), binpath, "-seed", str(seed), "-duration", "%ds" % duration, "-out", summ],
+                         env=env, stdout=subprocess.PIPE, stderr=subprocess.STDOUT)
+    return p, logbase, summ
 
 
 def run(prop, tier, seed, workdir, replaydir, build, log):
-    return {"violations": [], "inconclusive": [], "counters": {}, "samples": [], "evaluations": 0, "distinct": 0, "summary": "not built yet"}
+    res = {"violations": [], "inconclusive": [], "counters": {}, "samples": [], "evaluations": 0, "distinct": 0, "summary": {}}
+    binpath = os.path.join(VERIF, "bin", "vrace")
+    build("verif", binpath, "./cmd/vrace", cgo="1", race=True)
+    runs, duration = (3, 6) if tier == "quick" else (12, 25)
+    procs = [one_run(binpath, seed * 100 + i, duration, workdir, i) for i in range(runs)]
+    races = {}
+    totals = {}
+    for i, (p, logbase, summ) in enumerate(procs):
+        out, _ = p.communicate()
+        rc = p.returncode
+        text = ""
+        for f in glob.glob(logbase + "*"):
+            if f.endswith(".json"):
+                continue
+            text += open(f, errors="replace").read()
+        for sig, block in parse_races(text + (out.decode("utf-8", "replace") if out else "")):
+            races.setdefault(sig, []).append(block)
+        if not os.path.exists(summ):
+            tail = (out or b"")[-1500:].decode("utf-8", "replace")
+            if prop == "C20":
+                path = os.path.join(replaydir, "race_run_%d_died.txt" % i)
+                open(path, "w").write("vrace -seed %d died (rc=%s)\n%s\n" % (seed * 100 + i, rc, tail))
+                res["violations"].append({"property": prop, "key": "race-workload-died", "case": "vrace:%d" % (seed * 100 + i), "scan": 0,
+                                          "msg": "the RunForever workload died (rc=%s): %s" % (rc, tail[-300:].replace("\n", " | ")), "replay": path})
+            else:
+                res["inconclusive"].append("race run %d died (rc=%s) - reported under C20" % (i, rc))
+            continue
+        s = json.load(open(summ))
+        res["evaluations"] += 1
+        if s.get("stopped") and s.get("loop_error") == "main loop stopped":
+            totals["stopped_runs"] = totals.get("stopped_runs", 0) + 1
+        for k, v in s.items():
+            if isinstance(v, (int, float)) and not isinstance(v, bool):
+                totals[k] = totals.get(k, 0) + v
+        if len(res["samples"]) < 2:
+            res["samples"].append("race run seed=%d: %s" % (s["seed"], json.dumps({k: s[k] for k in ("node_updates", "node_deletes", "informer_replacements", "deep_reads", "metric_scrapes", "set_desired_calls", "stop_latency_ms", "loop_error")})))
+        if prop == "C20":
+            bad = None
+            if s.get("panic"):
+                bad = ("race-workload-panic", "RunForever panicked: %s" % s["panic"])
+            elif not s.get("stopped") and s.get("loop_error") != "main loop stopped":
+                bad = ("loop-ended-early", "RunForever returned %r before it was told to stop" % s.get("loop_error"))
+            elif not s.get("stopped"):
+                bad = ("loop-did-not-stop", "RunForever did not return within 30 s of the stop signal")
+            if bad:
+                path = os.path.join(replaydir, "race_run_%d.txt" % i)
+                open(path, "w").write(json.dumps(s, indent=1))
+                res["violations"].append({"property": prop, "key": bad[0], "case": "vrace:%d" % s["seed"], "scan": 0, "msg": bad[1], "replay": path})
+    if prop == "C15":
+        for n, (sig, blocks) in enumerate(sorted(races.items())):
+            path = os.path.join(replaydir, "data_race_%d.txt" % n)
+            open(path, "w").write("%d report(s) with this pair of entry points: %s\n\n%s" % (len(blocks), sig, blocks[0]))
+            res["violations"].append({"property": prop, "key": "data-race:" + sig, "case": "vrace", "scan": 0,
+                                      "msg": "the race detector reports a data race between %s (%d report(s))" % (sig, len(blocks)), "replay": path})
+    res["counters"] = {k: int(v) for k, v in totals.items()}
+    res["distinct"] = sum(1 for k in ("node_updates", "node_deletes", "set_desired_calls", "terminate_calls", "metric_scrapes", "informer_replacements") if totals.get(k, 0) > 0)
+    res["summary"] = {"runs": res["evaluations"], "seconds_each": duration, "totals": res["counters"], "distinct_race_reports": len(races)}
+    return res
